@@ -36,7 +36,7 @@ Proof. intros c H. apply wf_formatted_order. exact (generated_wf_each c H). Qed.
 Theorem C06_pivots_are_scheme_partial : forall c, In c classes -> pivots_ok c = true.
 Proof. intros c H. destruct (wf_desc_parts c (generated_wf_each c H)) as (_&_&_&_&_&_&_&_&_&P&_). exact P. Qed.
 
-Theorem C06_sep_delete : forall seps sepsb A M B, Sep seps sepsb (A ++ M ++ B) -> Sep seps sepsb (del_res A M B).
+Theorem C06_sep_delete : forall seps sepsb A M B post, Sep seps sepsb (A ++ M ++ B) -> Sep seps sepsb (del_res A M B post).
 Proof. exact Sep_del. Qed.
 
 Theorem C06_sep_insert : forall seps sepsb A B fr vs,
@@ -204,16 +204,45 @@ Proof.
   repeat constructor; simpl; intuition congruence.
 Qed.
 
-(* Known finding C06:list-item-removed-next-to-glued-item: Sep is a HYPOTHESIS of the theorems above, and a parsed
-   document need not meet it - `custom "x" 1 "s"2` has no separator between "s" and 2.  Deleting "s" (raw_values.pop(1))
-   removes its gap and its body, and `1` and `2` - apart before - are adjacent tokens afterwards (they lex as `12`).
-   The layout invariant of C03 holds before and after; separation was never there to be preserved. *)
-Theorem C06_sep_delete_glued_refuted :
+(* (e) repeated fields next to a glued item (RepeatedNodeWrapper._del_tokens, as repaired by
+   fixes/repeated-remove-keeps-separator-when-glued.patch; was the known finding C06:list-item-removed-next-to-glued-item).
+   Sep is a HYPOTHESIS of C06_sep_delete, and a parsed document need not meet it - `custom "x" 1 "s"2` has no separator
+   between "s" and 2.  Deleting "s" (raw_values.pop(1)) used to remove its gap and its body, and `1` and `2` - apart
+   before - were adjacent tokens afterwards (they lex as `12`).  Now: under the layout invariant alone, when the cells
+   M = m0 :: M' are deleted behind a cell a and in front of a cell b0, and RepeatedProofs.keep_gap holds (the gap of m0
+   is not empty, all blank, and the nearest token with text behind the window shows a character that has to be kept
+   apart - RepeatedProofs.shows, see C06_keep_gap_shows), the gap of m0 stays in front of b0: whatever kept m0 apart
+   from the item before it now keeps b0 apart from it - no hypothesis on the gap of b0. *)
+Theorem C06_delete_glued_keeps_gap : forall seps ph pre pht a A m0 M' b0 B' post,
+  WF ph pre pht ((a :: A) ++ (m0 :: M') ++ b0 :: B') post ->
+  RepeatedProofs.keep_gap (c_gap m0) (flat (b0 :: B') ++ post) = true ->
+  exists c,
+    (del_tokens ph (lay pre pht ((a :: A) ++ (m0 :: M') ++ b0 :: B') post)
+               (map item_of ((a :: A) ++ (m0 :: M') ++ b0 :: B')) (Prelude.zlen (a :: A)) (Prelude.zlen (a :: A) + Prelude.zlen (m0 :: M'))%Z
+     = (lay pre pht ((a :: A) ++ c :: B') post, Prelude.Ok tt)) /\
+    c_body c = c_body b0 /\ c_gap c = c_gap m0 ++ c_gap b0 /\
+    c_gap m0 <> [] /\ forallb blank_tok (c_gap m0) = true /\
+    (vis (c_gap m0) = true -> vis (c_gap c) = true) /\
+    (gap_ok seps m0 -> gap_ok seps c).
+Proof. exact del_glued_keeps_gap. Qed.
+
+(* keep_gap in terms of RepeatedProofs.shows: zero-width tokens Z skipped, the nearest token n with text behind the
+   window shows (as its first character) something that is neither blank nor a bracket *)
+Theorem C06_keep_gap_shows : forall g G Z n Q,
+  Forall (fun t => ttext t = nil) Z -> RepeatedProofs.shows true n = true -> forallb blank_tok (g :: G) = true ->
+  RepeatedProofs.keep_gap (g :: G) (Z ++ n :: Q) = true.
+Proof. exact keep_gap_shows. Qed.
+
+(* non-vacuity, on the input of the former finding: `"x" <ph> 1 "s"2` + LF, delete item 1 (`"s"`): the blank in front
+   of it (token 5) stays, the result prints `"x" 1 2`; layout before and after; Sep does not hold before. *)
+Example C06_delete_keeps_blank_before_glued_item :
   (RepeatedLayout.layout_b 2 glued_doc glued_items = true /\
   (exists pre pht a m b post, glued_doc = lay pre pht [a; m; b] post /\ vis (c_gap m) = true /\ c_gap b = [] /\
-     ~ Sep [(KWhitespace, [32])] [(KWhitespace, [32])] [a; m; b]) /\
+     ~ Sep [(KWhitespace, [32])] [(KWhitespace, [32])] [a; m; b] /\
+     RepeatedProofs.keep_gap (c_gap m) (flat [b] ++ post) = true) /\
   fst (del_tokens 2 glued_doc glued_items 1 2) =
     [mktok 1 KOther [34;120;34]; mktok 2 KPlaceholder []; mktok 3 KWhitespace [32]; mktok 4 KOther [49];
-     mktok 7 KOther [50]; mktok 8 KNewline [10]] /\
-  snd (del_tokens 2 glued_doc glued_items 1 2) = Prelude.Ok tt)%Z.
-Proof. exact del_glued_refuted. Qed.
+     mktok 5 KWhitespace [32]; mktok 7 KOther [50]; mktok 8 KNewline [10]] /\
+  snd (del_tokens 2 glued_doc glued_items 1 2) = Prelude.Ok tt /\
+  RepeatedLayout.layout_b 2 (fst (del_tokens 2 glued_doc glued_items 1 2)) [(4, 4); (7, 7)] = true)%Z.
+Proof. exact del_keeps_blank_before_glued_item. Qed.
